@@ -37,6 +37,14 @@ Lemma sto_id_not_init : forall s, Z.to_nat cache_init_id <> sto_id s.
 Proof. intros s. unfold sto_id. pose proof g_cache_init. lia. Qed.
 
 (* ------------------------------------------------------------------------------------------------------------ *)
+(* the summer's reader adds every visited slot: no condition, no early exit in ConcurrentSummer::value *)
+Lemma g_summer_unfiltered : summer_reader_unfiltered = true.
+Proof. reflexivity. Qed.
+Lemma summer_cells_all : forall cs, summer_cells cs = cs.
+Proof.
+  intros cs. unfold summer_cells. rewrite g_summer_unfiltered. induction cs as [|c cs IH]; cbn; [reflexivity|rewrite IH; reflexivity].
+Qed.
+
 Fixpoint colsum (f : cell -> Z) (m : nat -> nat -> nat -> cell) (s o n : nat) : Z :=
   match n with
   | O => 0%Z
@@ -518,6 +526,33 @@ Proof.
         intros k0 _; apply upd3_other; tauto.
 Qed.
 
+(* ConcurrentSummer << Summary{s, n}: both halves of the pair move by exactly (s, n), whatever their signs or zeros *)
+Lemma inv_write2 : forall x c i k s n, ck cf = KSummer -> inv x -> chnd x c = Some i -> (k < nxt (tids x))%nat -> (k < csize x (i_sto i))%nat ->
+  inv (let old := cmem x (i_sto i) k (i_off i) in
+       let x2 := set_cmem x (upd3 (cmem x) (i_sto i) k (i_off i) (cell_add2 s n old)) in
+       set_ghost x2 (upd (g_sum x2) c (g_sum x2 c + s)%Z) (upd (g_cnt x2) c (g_cnt x2 c + n)%Z) (g_per x2)).
+Proof.
+  intros x c i k s n Hkind I Hc Hk1 Hk2. cbn.
+  destruct (i_inst _ I _ _ Hc) as (B1 & B2 & B3 & B4).
+  constructor; cbn; try (same I).
+  - intros so k0 o Hk. rewrite upd3_other; [apply (i_mem _ I), Hk|].
+    destruct (Nat.eq_dec so (i_sto i)); [subst so|left; assumption]. right; right. lia.
+  - intros j Hj k0. rewrite upd3_other; [apply (i_freez _ I), Hj|].
+    destruct (Nat.eq_dec (sto_of j) (i_sto i)); [|left; assumption].
+    destruct (Nat.eq_dec (off_of j) (i_off i)); [|right; left; assumption].
+    exfalso. assert (j = i_iid i) by (apply slot_inj; congruence). subst j. destruct Hj; [contradiction|lia].
+  - intros Hs d j. unfold upd. destruct (Nat.eqb_spec d c).
+    + subst d. rewrite Hc. intros E; inversion E; subst j. destruct (i_sum _ I Hs _ _ Hc) as [S1 S2].
+      rewrite !colsum_upd3 by assumption. rewrite S1, (S2 Hkind). unfold cell_add2. cbn [fst snd]. split; [lia|intros _; lia].
+    + intros E. destruct (i_sum _ I Hs _ _ E) as [S1 S2].
+      assert (Hd : i_sto j <> i_sto i \/ i_off j <> i_off i).
+      { destruct (Nat.eq_dec (i_sto j) (i_sto i)); [|left; assumption].
+        destruct (Nat.eq_dec (i_off j) (i_off i)); [|right; assumption].
+        exfalso. apply n0. eapply inst_slot_inj; eauto. }
+      split; [|intros Hk; specialize (S2 Hk)]; (rewrite (colsum_ext _ (cmem x)); [assumption|]);
+        intros k0 _; apply upd3_other; tauto.
+Qed.
+
 Lemma inv_reset_adder : forall x c i, inv x -> small x -> ck cf = KAdder -> chnd x c = Some i ->
   inv (let x1 := set_cmem x (fill (cmem x) (i_sto i) (each_bound x (i_sto i)) (i_off i) (adder_reset_value, 0%Z)) in
        set_ghost x1 (upd (g_sum x1) c 0%Z) (upd (g_cnt x1) c 0%Z) (upd (g_per x1) c [])).
@@ -568,6 +603,8 @@ Proof.
   - destruct (chnd x c); cbn; [|lia]. destruct (ck cf); cbn; lia.
   - destruct (chnd x c); cbn; lia.
   - destruct (chnd x c); cbn; lia.
+  - destruct (ck cf); cbn; try lia. destruct (chnd x c); cbn; [|lia]. destruct (t_alive (thr x t)); cbn; [|lia].
+    pose proof (local_mono x t (i_sto i)). destruct (local cf x t (i_sto i)) as [x1 [so k]]; cbn in *. lia.
 Qed.
 
 Lemma small_mono : forall x x', (nxt (tids x) <= nxt (tids x'))%nat -> small x' -> small x.
@@ -596,6 +633,11 @@ Proof.
     + constructor; cbn; try (same I).
   - destruct (chnd x c); cbn; exact I.
   - destruct (chnd x c); cbn; exact I.
+  - destruct (ck cf) eqn:Ek; cbn; try exact I.
+    destruct (chnd x c) as [i|] eqn:E; cbn; [|exact I]. destruct (t_alive (thr x t)) eqn:Ea; cbn; [|exact I].
+    destruct (local cf x t (i_sto i)) as [x1 [so k]] eqn:El.
+    destruct (local_spec _ _ _ _ _ _ I Ea El) as (I1 & -> & _ & K1 & K2 & (M1 & M2 & M3 & M4 & _) & _).
+    cbn. rewrite <- M2 in E. apply (inv_write2 x1 c i k s n Ek I1 E K2 K1).
 Qed.
 
 Lemma run_mono : forall h x, (nxt (tids x) <= nxt (tids (run cf x h)))%nat.
@@ -613,7 +655,7 @@ Qed.
 Lemma read_sum : forall x c i, inv x -> small x -> summing -> chnd x c = Some i ->
   read cf x c i = (g_sum x c, if match ck cf with KSummer => true | _ => false end then g_cnt x c else 0%Z).
 Proof.
-  intros x c i I Hsm Hs Hc. unfold read, cells_of.
+  intros x c i I Hsm Hs Hc. unfold read, cells_of. rewrite !summer_cells_all.
   destruct (i_sum _ I Hs _ _ Hc) as [S1 S2].
   assert (Hf : forall f, f (czero (ck cf)) = 0%Z ->
             sumZ (map f (map (fun k => cmem x (i_sto i) k (i_off i)) (seq 0 (each_bound x (i_sto i))))) =
@@ -719,6 +761,9 @@ Proof.
   - destruct (chnd x c); cbn; [|exact H]. destruct (ck cf); exact H.
   - destruct (chnd x c); exact H.
   - destruct (chnd x c); exact H.
+  - destruct (ck cf); cbn; try exact H. destruct (chnd x c); cbn; [|exact H]. destruct (t_alive (thr x t0)); cbn; [|exact H].
+    pose proof (local_tid_stable cf x t0 (i_sto i) t k H) as L.
+    destruct (local cf x t0 (i_sto i)) as [x1 [s1 k1]]; exact L.
 Qed.
 
 Lemma run_tid_stable : forall cf h2 x t k, (1 <= cK cf)%nat -> (1 <= cB cf)%nat -> inv cf x -> small cf (run cf x h2) ->
@@ -1281,6 +1326,7 @@ Proof.
     destruct Hk as [Hk|Hk]; rewrite Hk; cbn; apply (minv_reset cf n x c i M Hn E).
   - destruct (chnd x c); cbn; exact M'.
   - destruct (chnd x c); cbn; exact M'.
+  - destruct Hk as [Hk|Hk]; rewrite Hk; cbn; exact M'.
 Qed.
 
 Lemma run_minv : forall cf h x n, (1 <= cK cf)%nat -> (1 <= cB cf)%nat -> cmp_kind (ck cf) ->
